@@ -462,7 +462,47 @@ example : Verdict uniformAtRej 0 true " ".toList (.noMatch 4) ∧
     Verdict (uniformAtRej.withMemo true) 0 true " ".toList (.noMatch 4) :=
   ⟨verdict_of_failPos (n := 100) (by decide +kernel), verdict_of_failPos (n := 100) (by decide +kernel)⟩
 
+/-! ## terminals are not memoized (round V19)
+
+`Match.parse` overrides `ParsingExpression.parse` and never looks at `_result_cache`: only non-terminals are memoized.
+Which expressions of a textX parser model are non-terminals is decided by the grammar compiler (`Tx.compile`): a rule
+that is just another name for a base type or a simple match rule (`Num: INT;`) has no expression of its own, it IS the
+match (`Tx.C19_alias_base_root` below).  Such a rule may therefore be reached under any number of whitespace contexts
+at one position -- the finding `C19_statement_false` needs a *non-terminal* reached under two contexts. -/
+
+/-- a terminal (`Match`): string match, regex match, end of file -/
+def Node.terminal (nd : Node) : Bool :=
+  match nd.kind with
+  | .str | .re | .eof => true
+  | _ => false
+
+private theorem nmRaise_cache' (s : PState) (pos : Nat) : (s.nmRaise pos).cache = s.cache := by
+  unfold PState.nmRaise; grind
+
+private theorem skipWs_cache' (g : Grammar) (s : PState) : (skipWs g s).cache = s.cache := rfl
+
+private theorem matchNode_cache (g : Grammar) (id : Nat) (nd : Node) (s : PState) :
+    (matchNode g (fun s => (.ok .none, s)) id nd s).2.cache = s.cache := by
+  unfold matchNode
+  grind [skipWs_cache', nmRaise_cache']
+
+/-- Parsing a terminal (no comment model) does not depend on the memoization flag, for ANY parser state -- whatever
+whitespace context it carries and whatever the memo cache holds -- and leaves the memo cache as it was. -/
+theorem C19_match_not_memoized (g : Grammar) (hc : g.comments = none) (m : Bool) (n id : Nat) (nd : Node)
+    (hn : g.nodes[id]? = some nd) (ht : nd.terminal = true) (s : PState) :
+    parse (g.withMemo m) (n + 1) id s = parse g (n + 1) id s ∧ (parse g (n + 1) id s).2.cache = s.cache := by
+  have hn' : (g.withMemo m).nodes[id]? = some nd := hn
+  have e : commentsLoop g (parse g n) n = fun s => (.ok .none, s) := by
+    funext s; simp [commentsLoop, hc]
+  unfold Node.terminal at ht
+  constructor
+  · simp only [parse, nodeParse, hn, hn']
+    cases hk : nd.kind <;> simp_all [matchNode_withMemo g hc m (parse (g.withMemo m) n) (parse g n) n n id nd s]
+  · simp only [parse, nodeParse, hn]
+    cases hk : nd.kind <;> simp_all [matchNode_cache]
+
 end Peg
+
 
 /-! ## model level: the textX mirror run with the memoizing parser -/
 namespace Tx
@@ -497,5 +537,25 @@ theorem uniformAt_input (c : Compiled) (cfg : Config) (input input' : Array Char
     (toks toks' : Array (Array (Option Nat)))
     (hu : Peg.UniformAt (c.grammar input toks) cfg.skipws cfg.ws) :
     Peg.UniformAt (c.grammar input' toks') cfg.skipws cfg.ws := ⟨hu.noComments, hu.ctx⟩
+
+/-! ### aliases of a match have no parsing expression of their own (round V19) -/
+open Peg in
+/-- `_resolve_rule_refs` on a rule that is just another name for a base type (`Num: INT;`): the rule has no parsing
+expression of its own, its root IS the node of the base type -/
+theorem C19_alias_base_root (g : Gram) (offs : List (String × Nat)) (f : Nat) (name tgt : String) (r : Rule) (i : Nat)
+    (h1 : g.find? name = some r) (h2 : r.aliasOf = some tgt) (h3 : g.find? tgt = none) (h4 : baseIndex tgt = some i) :
+    resolveRoot g offs (f + 2) name = .ok i := by
+  simp [resolveRoot, h1, h2, h3, h4]
+
+/-- ... and the six simple base types are terminals (regex matches), which are never memoized
+(`Peg.C19_match_not_memoized`) -/
+theorem C19_base_terminal (i : Nat) (h : i < 6) : (baseNodes[i]?).map (·.node.terminal) = some true := by
+  have : i = 0 ∨ i = 1 ∨ i = 2 ∨ i = 3 ∨ i = 4 ∨ i = 5 := by omega
+  rcases this with rfl | rfl | rfl | rfl | rfl | rfl <;> rfl
+
+/-- the corpus witness `Item: Range | Point; Range[noskipws]: '[' lo=Num ..; Point: '[' x=Num ..; Num: INT;` in short:
+`Num` resolves to node 2 = `INT` -/
+example : resolveRoot { rules := [{ name := "Model", body := .seq [.ref "Num" false, .str 6 "x" false] false },
+                                  { name := "Num", body := .ref "INT" false }] } [] 3 "Num" = .ok 2 := by rfl
 
 end Tx
